@@ -112,6 +112,14 @@ CLAIMED = {
          "decides history independence for all script sequences.",
     technique="who-may-write effect analysis with alias propagation + CFG dominance + table-based discharge of factory call sites",
     ref="4/C13"),
+ "C18": dict(
+    text="Z1 in Lexer.scan no position write lies on a path from the loop head to the yield (the position is the start of the current token while a "
+         "handler raises); Z2 curlineno/curcolno match the reference formulas (1 + LF count before pos; pos - index of last LF), accepted in their "
+         "equivalent slice / bounded-call forms; Z3 the handler builds error_pos from exactly those calls and len() of the loop's current token value "
+         "and the text from the same line; Z4 the generator is iterated directly (lazy), so no position depends on later input; Z5 the only foreign "
+         "position write is the width-bounded replay (rule X2). Necessary conditions; positions of late-detected errors are not decided.",
+    technique="CFG path query on the lexer loop + AST template matching of the position formulas and handler assembly",
+    ref="4/C18"),
 }
 NA = {}
 
